@@ -886,6 +886,9 @@ class Runner(object):
                 choices += [('integrity', 4)]
             if fl == 'race':
                 choices += [('late', 14), ('result', 8)]
+            if fl in ('plain', 'stuck', 'intbatch') and c['integrityDelay'] >= 0 and not getattr(self, 'did_pause', False):
+                # an integrity-check pass that falls into a window in which the workflow is PAUSED
+                choices += [('pausewin', 10)]
             if fl == 'poison' and not did_delete and step >= 1:
                 choices += [('delete_def', 40)]
             if fl == 'taskless' and not did_taskless:
@@ -956,6 +959,17 @@ class Runner(object):
                     self.ev_db_complete(a['id'], rng.choice(['success', 'success', 'error']))
             elif kind == 'integrity':
                 self.ev_integrity()
+            elif kind == 'pausewin':
+                root = [x for x in obs['wfs'] if x['id'] == self.root]
+                if root and root[0]['state'] == 'RUNNING' and self.integrity_jobs():
+                    self.did_pause = True
+                    self.feat.add('integrity-pass-while-paused')
+                    self.w.op('pause_workflow', self.root)
+                    # the check runs while the workflow is PAUSED (modelled event + monitor: it must
+                    # re-arm itself: the workflow is not finished), then the operator resumes
+                    self.ev_integrity()
+                    self.w.op('resume_workflow', self.root)
+                    self.drain()
             elif kind == 'delete_def':
                 self.ev_delete_definition()
                 did_delete = True
